@@ -4,7 +4,7 @@
     A method is the sequence of its lock operations and accesses to the three guarded
     fields (jwk, key, pubKeys) in source order — the *skeleton* the driver extracts from
     jwt_signer.go with go/ast on every run.  Threads execute skeletons step by step; a
-    schedule picks the thread that moves next; a RWMutex admits a reader iff no writer
+    schedule picks the thread that moves next; a RWMutex lets a reader in iff no writer
     holds it and a writer iff nobody holds it.  Field values are abstracted to the
     *generation* (identity of the load) that wrote them: a reader that sees generation g
     for jwk and for key has the JWK and the private key of one load. *)
